@@ -170,7 +170,7 @@ def main(argv=None):
     import aw_datastore.storages.sqlite as sq
     from aw_core.models import Event
 
-    ck.run_witnesses(["w07"])
+    ck.run_witnesses(["w07", "w19"])
     ck.prove(extra_targets=["Bridge/BridgeCommit.v", "Model/CommitDriver.v"],
              gen_kernels=["commit", "conditional_commit", "sqlite_scripts", "peewee_autocommit"])
     have_driver = ck.driver()
